@@ -38,6 +38,7 @@ def ops_for(root, rng):
     some = rng.choice(nodes)
     other = rng.choice(nodes)
     name = rng.choice([n.name for n in nodes] + ["zz"])
+    rng_child = rng.choice(some.children) if some.children else other
     def safe(f):
         def g():
             try:
@@ -84,6 +85,9 @@ def ops_for(root, rng):
         "get_ancestry": safe(lambda: [n.id for n in some.get_ancestry()]),
         "child_index": safe(lambda: some.child_index(other)),
         "is_allowed_child": safe(insert_index), "child_insert_index": safe(insert_index2),
+        # the re-positioning use: the queried node is already a child of that parent (or sits elsewhere in the tree)
+        "child_insert_index(attached)": safe(lambda: rulemod.get_rule(some.name).child_insert_index(some, rng_child) if some.name in rulemod.node_mappings else None),
+        "child_insert_index(other)": safe(lambda: rulemod.get_rule(some.name).child_insert_index(some, other) if some.name in rulemod.node_mappings else None),
         "is_equal": safe(lambda: Node.is_equal(some, other)),
         "str/repr": safe(lambda: (str(some), repr(some))),
     }
@@ -123,7 +127,17 @@ def run(ctx):
                     n.nsmap = base
             elif rng.random() < 0.7:
                 n.nsmap = {"eml": "urn:e", "xsi": "urn:x"}
-        case = {"tree": impl.snapshot(root)}
+        # registry pre-states other than "every node registered under its own id": an id bound to ANOTHER object (a clone
+        # loaded from this tree's JSON re-uses the ids) or absent (entry deleted while the node is still in the tree)
+        keep_alive = []
+        r = rng.random()
+        if r < 0.15:
+            keep_alive.append(metapype_io.from_json(metapype_io.to_json(root)))
+        elif r < 0.3:
+            for n in walk(root):
+                if rng.random() < 0.3:
+                    Node.delete_node_instance(n.id, children=False)
+        case = {"tree": impl.snapshot(root), "registry_prestate": "clone" if r < 0.15 else "holes" if r < 0.3 else "own"}
         ops = ops_for(root, rng)
         base = deep_snapshot([root])
         # each operation alone on the pristine tree: reference results
